@@ -42,7 +42,9 @@ var kinds = []string{"mem", "kvplain", "mount", "submem", "cache", "tar", "osfs"
 var methods = []string{"read", "readat", "write", "writeat", "seek", "stat", "readdir", "truncate", "chmod", "sync", "close"}
 
 // boundary-argument variants of the methods above (see call)
-var variants = []string{"read:0", "readat:0", "write:0", "writeat:0", "seek:cur", "readdir:all", "truncate:same"}
+var variants = []string{"read:0", "readat:0", "write:0", "writeat:0", "seek:cur", "readdir:all", "truncate:same",
+	// arguments that are invalid on an open handle too: which of the two complaints wins on a closed one is what os.File says
+	"truncate:neg", "readat:neg", "writeat:neg", "seek:neg", "seek:end"}
 
 type built struct {
 	fs       hackpadfs.FS
@@ -200,6 +202,21 @@ func call(f hackpadfs.File, method string) (err error, supported bool) {
 	case "truncate:same":
 		_, supported = f.(hackpadfs.TruncaterFile)
 		err = hackpadfs.TruncateFile(f, 11)
+	case "truncate:neg":
+		_, supported = f.(hackpadfs.TruncaterFile)
+		err = hackpadfs.TruncateFile(f, -1)
+	case "readat:neg":
+		_, supported = f.(hackpadfs.ReaderAtFile)
+		_, err = hackpadfs.ReadAtFile(f, make([]byte, 4), -1)
+	case "writeat:neg":
+		_, supported = f.(hackpadfs.WriterAtFile)
+		_, err = hackpadfs.WriteAtFile(f, []byte("zz"), -1)
+	case "seek:neg":
+		_, supported = f.(hackpadfs.SeekerFile)
+		_, err = hackpadfs.SeekFile(f, -1, io.SeekStart)
+	case "seek:end":
+		_, supported = f.(hackpadfs.SeekerFile)
+		_, err = hackpadfs.SeekFile(f, 1, io.SeekEnd)
 	case "chmod":
 		_, supported = f.(hackpadfs.ChmoderFile)
 		err = hackpadfs.ChmodFile(f, 0o600)
@@ -247,6 +264,16 @@ func osCall(f *os.File, method string) error {
 		err = f.Truncate(3)
 	case "truncate:same":
 		err = f.Truncate(11)
+	case "truncate:neg":
+		err = f.Truncate(-1)
+	case "readat:neg":
+		_, err = f.ReadAt(make([]byte, 4), -1)
+	case "writeat:neg":
+		_, err = f.WriteAt([]byte("zz"), -1)
+	case "seek:neg":
+		_, err = f.Seek(-1, io.SeekStart)
+	case "seek:end":
+		_, err = f.Seek(1, io.SeekEnd)
 	case "chmod":
 		err = f.Chmod(0o600)
 	case "sync":
